@@ -49,6 +49,7 @@ type feature struct {
 	Body   string // statements of the target function (4-space indented lines)
 	Edits  []edit
 	Post   string // module-level code placed after the target() call
+	TArgs  string // extra arguments of the target() call
 	Solo   bool   // many edits: composed alone (and in pairs only in the thorough tier)
 	Own    bool   // the feature defines the target itself (Pre must define and register //:t)
 }
@@ -117,6 +118,8 @@ func features() []feature {
 		{Name: "dict-keyed-by-function", Pre: "def kf(x):\n    return x + 1\nDKF = {kf: \"objects\"}\n", Body: "    x_dkf = DKF\n", Edits: []edit{{"change value under a function key", "\"objects\"", "\"binary\""}, {"change the function that is the key", "return x + 1", "return x + 2"}}},
 		{Name: "dict-keyed-by-builtin", Pre: "DKB = {len: 1, str: 2}\n", Body: "    x_dkb = DKB\n", Edits: []edit{{"change value under a builtin key", "len: 1", "len: 3"}}},
 		{Name: "set-of-functions", Pre: "def sf1(x):\n    return x\ndef sf2(x):\n    return -x\nSOF = set([sf1, sf2])\n", Body: "    x_sof = SOF\n", Edits: []edit{{"change a function that is a set element", "return -x", "return x * 2"}}},
+		// a declared output: when it is missing AND the environment was edited, the reason still names the parts that differ
+		{Name: "generates-a-file", TArgs: ", generates=[\"gen.out\"]", Pre: "GEN_K = 1\n", Body: "    x_gen = GEN_K\n", Edits: []edit{{"change a global of a target with a declared output (which is deleted, too)", "GEN_K = 1", "GEN_K = 2"}}},
 		{Name: "struct-attr-chain", Pre: "def mk2():\n    return {\"f\": lambda v: v + 1}\nST = mk2()\n", Body: "    x_st = ST[\"f\"](1)\n", Edits: []edit{{"change lambda stored in a dict", "v + 1", "v + 2"}}},
 	}
 }
@@ -164,8 +167,12 @@ type program struct {
 func compose(fs ...feature) program {
 	p := program{Files: map[string]string{"dawn.toml": "name = \"p\"\n", "a.txt": "a\n"}}
 	var names []string
-	var pre, params, body, post strings.Builder
+	var pre, params, body, post, targs strings.Builder
 	for _, f := range fs {
+		targs.WriteString(f.TArgs)
+		if f.TArgs != "" {
+			p.Files["gen.out"] = "generated\n" // the declared output exists (bodies here write nothing)
+		}
 		names = append(names, f.Name)
 		pre.WriteString(f.Pre)
 		post.WriteString(f.Post)
@@ -193,7 +200,7 @@ func compose(fs ...feature) program {
 		}
 	}
 	p.Name = strings.Join(names, "+")
-	p.Files["BUILD.dawn"] = pre.String() + "def _t(t" + ps + "):\n" + body.String() + "target(name=\"t\", function=_t)\n" + post.String()
+	p.Files["BUILD.dawn"] = pre.String() + "def _t(t" + ps + "):\n" + body.String() + "target(name=\"t\", function=_t" + targs.String() + ")\n" + post.String()
 	return p
 }
 
@@ -513,6 +520,9 @@ func main() {
 			}
 			// the rebuild reason names exactly the parts that differ (C16, last clause)
 			want, derr := differingKeys(l1.env, le.env)
+			if strings.Contains(p.Name, "generates-a-file") {
+				os.Remove(filepath.Join(rootE, "gen.out")) // the declared output is missing, too
+			}
 			if err := run(le); err != nil {
 				viol("build-error:"+errClass(err), "build after an edit failed: "+err.Error(), e.Name)
 				continue
